@@ -106,6 +106,88 @@ def fld(x):
     return b"" if x == "-" else bytes.fromhex(x)
 
 
+class Store:
+    """The oracle's own book of accepted announces per info-hash.  Mirrors only what the property
+    needs of DhtTracker: one entry per address, at most 128 entries (the first oldest is replaced),
+    entries older than 30 min dropped by housekeeping."""
+
+    def __init__(self):
+        self.t = {}
+        self.cov = {}
+
+    def add(self, ih, ip, port, now):
+        l = self.t.setdefault(ih, [])
+        self.cov.pop(ih, None)
+        for e in l:
+            if e[0] == ip:
+                e[1], e[2] = port, now
+                return
+        if len(l) < 128:
+            l.append([ip, port, now])
+        else:
+            l[min(range(len(l)), key=lambda j: (l[j][2], j))] = [ip, port, now]
+
+    def prune(self, now):
+        for ih in list(self.t):
+            self.t[ih] = [e for e in self.t[ih] if e[2] >= now - 1800]
+            if not self.t[ih]:
+                del self.t[ih]
+        self.cov = {}
+
+    def check(self, ih, vals, rnd):
+        """clauses on a get_peers value list: every value a stored peer of THIS info-hash; at most 32;
+        with <= 32 stored all of them; with more, every stored peer reachable: once the list has been
+        asked with every random() value 0..127 the union of the answers must be the whole store"""
+        bad = []
+        l = self.t.get(ih, [])
+        stored = {e[0].to_bytes(4, "big") + e[1].to_bytes(2, "big") for e in l}
+        sw = lambda v: v[:4] + v[5:6] + v[4:5]
+        for v in vals:
+            if v not in stored:
+                if sw(v) in stored:
+                    bad.append(("announce-port-host-order", "accepted announce (ip, port) not returned by get_peers in network byte order"))
+                else:
+                    bad.append(("values-foreign", "get_peers returned a value nobody announced for this info-hash"))
+                break
+        if len(vals) > 32:
+            bad.append(("values-too-many", "get_peers returned %d values (limit 32)" % len(vals)))
+        if len(l) <= 32:
+            for v in stored:
+                if v not in vals and sw(v) not in vals:
+                    bad.append(("announce-lost", "a peer whose (re-)announce was accepted less than 30 min before the last housekeeping is missing from get_peers"))
+                    break
+        else:
+            rs, un = self.cov.setdefault(ih, (set(), set()))
+            rs.add(rnd)
+            un.update(vals)
+            if all(r in rs for r in range(128)):
+                miss = stored - un
+                if miss:
+                    bad.append(("peer-unreachable", "%d of %d stored peers are returned for NO value of random() (all of 0..127 tried)" % (len(miss), len(l))))
+                del self.cov[ih]
+        return bad
+
+
+def check_nodes(nb, table, target):
+    """a `nodes` string against the routing table dumped right before the query"""
+    if len(nb) == 0 or len(nb) % 26 or len(nb) > 8 * 26:
+        return [("nodes-shape", "nodes is not 1..8 whole 26-byte entries")]
+    if table is None:
+        return []
+    alln = {(n["id"], n["ip"], n["port"]): n for b in table["buckets"] for n in b["nodes"]}
+    fresh = all(b["cache"] == 0 for b in table["buckets"])
+    cover = [b for b in table["buckets"] if b["lo"] <= target <= b["hi"]]
+    for i in range(0, len(nb), 26):
+        key = (int.from_bytes(nb[i:i + 20], "big"), int.from_bytes(nb[i + 20:i + 24], "big"), int.from_bytes(nb[i + 24:i + 26], "big"))
+        if key not in alln:
+            own_bucket = cover and cover[0]["lo"] <= key[0] <= cover[0]["hi"]
+            return [("nodes-deleted-served-own-bucket" if own_bucket else "nodes-deleted-served-borrowed",
+                     "nodes entry %040x is not (any more) a node of the routing table" % key[0])]
+        if fresh and alln[key]["inact"] >= 5:
+            return [("nodes-not-live", "nodes entry is a bad node although the list was built for this reply")]
+    return []
+
+
 def check_dgram(f, res, own, cur, prev, now, store, over, table):
     """reply_shape on the implementation's answer to one datagram op
        U,ip,rnd,t,y,q,id,target,ih,token,port"""
@@ -133,7 +215,7 @@ def check_dgram(f, res, own, cur, prev, now, store, over, table):
             if re.match(r"r t=", res):
                 p16 = portv % 65536
                 if p16 and ih is not None:
-                    store.setdefault(int.from_bytes(ih[:20], "big"), {})[ip] = (p16, now)
+                    store.add(int.from_bytes(ih[:20], "big"), ip, p16, now)
                 return [("announce-port-out-of-range", "announce_peer with port %d accepted (stored as port %d)" % (portv, p16))]
             return bad
         wf = tk is not None and portv is not None
@@ -160,12 +242,7 @@ def check_dgram(f, res, own, cur, prev, now, store, over, table):
         if want != bool(m):
             bad.append(("token-window", "announce_peer accepted=%s but token issued-to-this-ip-within-two-rotations=%s" % (bool(m), want)))
         if m:
-            p16 = portv
-            if p16:
-                d = store.setdefault(ihv, {})
-                d[ip] = (p16, now)
-                if len(d) > 32:
-                    over.add(ihv)
+            store.add(ihv, ip, portv, now)
         elif not (e and e.group(2) == "203"):
             bad.append(("reply-shape", "refused announce_peer without a 203 error"))
         if m and (m.group(3), m.group(4), m.group(5)) != ("~", "~", "~"):
@@ -192,42 +269,20 @@ def check_dgram(f, res, own, cur, prev, now, store, over, table):
             bad.append(("reply-body", "get_peers reply must carry exactly one of nodes / values"))
     if nodes != "~":
         nb = bytes.fromhex(nodes) if nodes != "-" else b""
-        if len(nb) == 0 or len(nb) % 26 or len(nb) > 8 * 26:
-            bad.append(("nodes-shape", "nodes is not 1..8 whole 26-byte entries"))
-        elif table is not None:
-            # a dump immediately precedes this query: every entry must be a node of the table, and a
-            # non-bad one where the bucket's cache was empty (built for this reply)
-            alln = {(n["id"], n["ip"], n["port"]): n for b in table["buckets"] for n in b["nodes"]}
-            fresh = all(b["cache"] == 0 for b in table["buckets"])
-            for i in range(0, len(nb), 26):
-                key = (int.from_bytes(nb[i:i + 20], "big"), int.from_bytes(nb[i + 20:i + 24], "big"), int.from_bytes(nb[i + 24:i + 26], "big"))
-                if fresh and (key not in alln or alln[key]["inact"] >= 5):
-                    bad.append(("nodes-not-live", "nodes entry is not a non-bad node of the routing table"))
-                    break
+        tgt = target if q == b"find_node" else ih
+        bad += check_nodes(nb, table, int.from_bytes(tgt[:20], "big"))
     if vals != "~":
         vl = [bytes.fromhex(x) for x in vals.split(",")] if vals != "-" else []
         if not vl or any(len(v) != 6 for v in vl):
             bad.append(("values-shape", "values is not a non-empty list of 6-byte strings"))
-        exp = store.get(ihv, {})
-        okvals = {i.to_bytes(4, "big") + pt.to_bytes(2, "big") for i, (pt, _) in exp.items()}
-        if ihv not in over:
-            for v in okvals:
-                if v not in vl:
-                    swapped = v[:4] + v[5:6] + v[4:5]
-                    if swapped in vl:
-                        bad.append(("announce-port-host-order", "accepted announce (ip, port) not returned by get_peers in network byte order"))
-                    else:
-                        bad.append(("announce-lost", "a peer whose (re-)announce was accepted less than 30 min before the last housekeeping is missing from get_peers"))
-                    break
-            for v in vl:
-                if v not in okvals and (v[:4] + v[5:6] + v[4:5]) not in okvals:
-                    bad.append(("values-foreign", "get_peers returned a value nobody announced for this info-hash"))
-                    break
+        bad += store.check(ihv, vl, int(f[2]))
     return bad
 
 
 def oracle(case, line):
     """Property C15 (unit level) evaluated on ONE implementation output line."""
+    if line.startswith("CRASH TIMEOUT"):
+        return [("hang", "the implementation did not finish this case within the watchdog limit")]
     if line.startswith("CRASH") or "ERR:" in line or "BADCASE" in line or "BADOP" in line:
         return [("crash", "router/tracker crashed or raised internal_error: " + line[-200:])]
     toks = case.split()
@@ -239,8 +294,8 @@ def oracle(case, line):
         return [("crash", "output has %d parts for %d ops" % (len(parts), len(ops)))]
     bad = []
     last = None
-    store = {}      # ih -> {ip: (port16, t)}   accepted announces (oracle's own bookkeeping)
-    over = set()    # ih whose store ever exceeded max_peers (oracle then only checks membership)
+    store = Store()
+    over = None
     prevk = None
     kk = None
     lastz = None
@@ -279,10 +334,7 @@ def oracle(case, line):
             now += int(f[1])
         elif k == "H":
             prev, cur = cur, int(f[1])
-            for ih in list(store):
-                for ip in list(store[ih]):
-                    if store[ih][ip][1] < now - 1800:
-                        del store[ih][ip]
+            store.prune(now)
         elif k == "G":
             if bytes.fromhex(res if res != "-" else "") != tok(cur, int(f[1])):
                 bad.append(("token-issue", "issued token is not H(current secret, ip)[0..8]"))
@@ -299,10 +351,7 @@ def oracle(case, line):
                 if not inrange:
                     bad.append(("announce-port-out-of-range", "announce_peer with port %s accepted (stored as port %d)" % (f[3], port)))
                 if port:
-                    d = store.setdefault(int(f[1], 16), {})
-                    d[ip] = (port, now)
-                    if len(d) > 32:
-                        over.add(int(f[1], 16))
+                    store.add(int(f[1], 16), ip, port, now)
         elif k == "P":
             ih = int(f[1], 16)
             if not res.startswith("t=") and not res.startswith("err:"):
@@ -314,27 +363,11 @@ def oracle(case, line):
                 vals = [bytes.fromhex(x.lstrip("?")) for x in m.group(1).split(",")]
                 if "?" in m.group(1):
                     bad.append(("values-shape", "value entry is not a 6-byte string"))
-            exp = store.get(ih, {})
-            okvals = {ip.to_bytes(4, "big") + pt.to_bytes(2, "big") for ip, (pt, _) in exp.items()}
-            if ih not in over:
-                for v in okvals:
-                    if v not in vals:
-                        swapped = v[:4] + v[5:6] + v[4:5]
-                        if swapped in vals:
-                            bad.append(("announce-port-host-order", "accepted announce (ip, port) not returned by get_peers in network byte order"))
-                        else:
-                            bad.append(("announce-lost", "a peer whose (re-)announce was accepted less than 30 min before the last housekeeping is missing from get_peers"))
-                        break
-            for v in vals:
-                if v not in okvals and ih not in over:
-                    swapped = v[:4] + v[5:6] + v[4:5]
-                    if swapped in okvals:
-                        continue        # already reported above
-                    bad.append(("values-foreign", "get_peers returned a value nobody announced for this info-hash"))
-                    break
-            nm = re.search(r" n=(\S+)", res)
-            if nm and last is not None:
-                pass
+            if m:
+                bad += store.check(ih, vals, int(f[3]))
+            nm = re.search(r" n=([0-9a-f]+)", res)
+            if nm:
+                bad += check_nodes(bytes.fromhex(nm.group(1)), last if prevk == "D" else None, ih)
         elif k == "Z":
             lastz = None
             if res.startswith("tx="):
@@ -367,9 +400,26 @@ def oracle(case, line):
         elif k == "U":
             bad += check_dgram(f, res, own, cur, prev, now, store, over, last if prevk == "D" else None)
         elif k == "F":
-            if res.startswith("n=") and (len(res) - 2) % 52 != 0:
-                bad.append(("nodes-shape", "nodes string is not a multiple of 26 bytes"))
+            if res.startswith("n="):
+                bad += check_nodes(bytes.fromhex(res[2:]), last if prevk == "D" else None, int(f[1], 16))
     return bad
+
+
+def proj(line):
+    """What the correspondence compares (ROBUSTNESS rule 4): the property does not fix the text or
+    class of an error reply (any applicable one is fine), nor WHICH window of 32 peers get_peers
+    returns when more are stored; those are projected out here and judged by the oracle's clauses
+    (refused vs accepted, every value a stored peer, every stored peer reachable).  The state
+    checksum after every op stays in the comparison, so the accepted set cannot drift."""
+    out = []
+    for part in line.split(" | "):
+        part = re.sub(r"^(U|Y|E):e t=(\S+) \d+ \S+#", r"\1:e t=\2#", part)
+        part = re.sub(r"^(A|P|F):err:[^#]*#", r"\1:err#", part)
+        m = re.search(r" v=([0-9a-f,]+)", part)
+        if m and m.group(1).count(",") == 31:
+            part = part.replace(m.group(0), " v=<32>")
+        out.append(part)
+    return " | ".join(out)
 
 
 def run(rep, tier, seed, replay):
@@ -400,7 +450,9 @@ def run(rep, tier, seed, replay):
     else:
         cases, stats = G.gen(seed, tier)
     mo = ltv.run_sharded(model, cases)
-    io = ltv.run_sharded(impl, cases)
+    # watchdog (ROBUSTNESS rule 5): a shard that does not finish is re-run case by case with the same
+    # limit; the hanging case becomes 'CRASH TIMEOUT' = one violation of class 'hang', the run goes on
+    io = ltv.run_sharded(impl, cases, timeout=90 if tier == "quick" else 300)
     nontrivial = set()
     mism = 0
     samples = []
@@ -423,10 +475,10 @@ def run(rep, tier, seed, replay):
         if len(samples) < 4 and i % 61 == 7:
             samples.append({"case": case[:300], "impl": o[-300:]})
         viol = oracle(case, o)
-        if m != o:
+        if proj(m) != proj(o):
             mism += 1
             # first differing op, for the replay file
-            where = next((j for j, (a, b) in enumerate(zip(m.split(" | "), o.split(" | "))) if a != b), -1)
+            where = next((j for j, (a, b) in enumerate(zip(proj(m).split(" | "), proj(o).split(" | "))) if a != b), -1)
             if viol:
                 kl, text = viol[0]
                 report(kl, "model and implementation differ (op %d) AND the property fails on the implementation: %s" % (where, text),
